@@ -61,6 +61,7 @@ def comb? : List String → Option (Comb × List String)
   | "usummod" :: m :: r => (parseInt? m).map (fun m => (.uSumMod m, r))
   | "uunion" :: r => some (.uUnion, r)
   | "umaxabs" :: r => some (.uMaxAbs, r)
+  | "ulast" :: r => some (.uLast, r)
   | _ => none
 
 def fanout? : List String → Option (Option Nat × List String)
